@@ -23,7 +23,9 @@ def cut_key(c):
     v = c.get("go", {}).get("verdict", "?")
     if v == "complete" and client == "close":
         if c["framing"] == "close":
-            return "truncated-complete:close-delimited-reply-%s" % ("reset" if c["end"] == "rst" else "fin")
+            how = {"rst": "reset", "tlscut": "tls-cut-without-close-notify"}.get(c["end"], c["end"])
+            via = "-mitm-client" if c.get("route") == "mitm" else ""
+            return "truncated-complete:close-delimited-reply-%s%s" % (how, via)
         return "truncated-complete:%s-reply-delivered-close-delimited-to-%s-client" % (c["framing"], c["proto"].replace("/", "").lower())
     if v == "complete":
         return "truncated-complete:%s-reply-%s-framing-at-client" % (c["framing"], client)
